@@ -162,8 +162,25 @@ def t6_retry_granularity(ck, F):
             arr_local = ao[1] if ao[0] == 'multi' else ao[2]['lhs']['l']
     elif bo[0] in ('multi', 'rv'):
         arr_local = bo[1] if bo[0] == 'multi' else bo[2]['lhs']['l']
+    one_byte_local = False
+    if bo[0] == 'call' and callee_is(F, bo[2], 'slice::from_mut') and len(bo[2]['args']) == 1:
+        # `slice::from_mut(&mut byte)` over a local u8: the other spelling of a local 1-byte buffer
+        a0 = bo[2]['args'][0]
+        for _ in range(6):
+            if a0.get('o') not in ('copy', 'move') or a0['p'].get('proj'): break
+            ds = [s_ for blk in b['blocks'] for s_ in blk['stmts'] if s_['s'] == 'assign' and s_['lhs']['l'] == a0['p']['l'] and not s_['lhs'].get('proj')]
+            if len(ds) != 1: break
+            rv_ = ds[0]['rv']
+            if rv_['r'] == 'ref' and [e_.get('p') for e_ in rv_['p'].get('proj', [])] == ['deref']:      # reborrow `&mut *r`
+                a0 = {'o': 'copy', 'p': {'l': rv_['p']['l'], 'proj': []}}; continue
+            if rv_['r'] == 'ref' and not rv_['p'].get('proj'):
+                lt_ = b['locals'][rv_['p']['l']]['t']
+                if lt_.get('k') == 'int' and lt_.get('bits') == 8: arr_local = rv_['p']['l']; one_byte_local = True
+                break
+            if rv_['r'] == 'use': a0 = rv_['a']; continue
+            break
     lt = b['locals'][arr_local]['t'] if arr_local is not None else None
-    if not (lt and lt['k'] == 'array' and lt['len'] == 1):
+    if not (one_byte_local or (lt and lt['k'] == 'array' and lt['len'] == 1)):
         ck.violation('T6', key + ' : read size', where_of(b, rbb), 'read_exact is not given a local 1-byte buffer (a short read could lose bytes already taken from the source)'); ok = False
     # after a successful read, push_back happens before the loop header is reached again / before return
     loops = g.loops()
@@ -184,9 +201,17 @@ def t6_retry_granularity(ck, F):
             st.extend(g.succ[x])
         if bypass is not None:
             ck.violation('T6', key + ' : byte dropped', where_of(b, rbb), 'a path from a successful read_exact back to the loop header avoids push_back'); ok = False
-        po = D.origin(pt['args'][1])
-        if not (po[0] in ('multi', 'rv') and (po[1] == arr_local or (po[0] == 'rv' and po[2]['lhs']['l'] == arr_local) or True)):
-            pass
+        # what is pushed is the byte just read: the operand is a copy of the buffer local (its element 0)
+        a1 = pt['args'][1]; pushed = None
+        for _ in range(6):
+            if a1.get('o') not in ('copy', 'move'): break
+            if a1['p']['l'] == arr_local: pushed = a1['p']; break
+            if a1['p'].get('proj'): break
+            ds = [s_ for blk in b['blocks'] for s_ in blk['stmts'] if s_['s'] == 'assign' and s_['lhs']['l'] == a1['p']['l'] and not s_['lhs'].get('proj')]
+            if len(ds) != 1 or ds[0]['rv']['r'] != 'use': break
+            a1 = ds[0]['rv']['a']
+        if arr_local is not None and pushed is None:
+            ck.violation('T6', key + ' : pushed byte', where_of(b, pbb), 'push_back does not push the byte that read_exact has just filled in'); ok = False
     if ok:
         ck.ok('T6', 'buffer_bytes: read_exact(&mut [u8;1]) then push_back on the success path, per byte', where_of(b, rbb))
 
